@@ -11,7 +11,7 @@ import sys
 HERE = os.path.dirname(os.path.abspath(__file__))
 VERIF = os.path.dirname(HERE)
 REPO = os.environ.get("VERIF_REPO", "/repo")
-TARGET = os.path.join(VERIF, ".cache", "target")
+TARGET = os.environ.get("VERIF_TARGET", os.path.join(VERIF, ".cache", "target"))
 _built = {}
 
 
